@@ -39,7 +39,7 @@ pub fn marker(i: usize, salt: usize) -> u8 {
     0x80 | (((37 * i + 11 + 53 * salt) & 0x7F) as u8)
 }
 
-pub const EDGE32: [u32; 32] = [
+pub const EDGE32: [u32; 36] = [
     0, 1, 2, 3, 4, 7, 8, 9, 15, 16, 17, 0xFF, 0x100, 0xFFFE, 0xFFFF, 0x1_0000, 0x1_0001, 0x00FF_FFFF, 0x0100_0000, 0x7FFF_FFFF,
     0x8000_0000, 0xFFFF_FFF7, 0xFFFF_FFF8, 0xFFFF_FFFF,
     // the two magic numbers of the specification (header magic, boot-loader magic): values a "diagnostic" special
@@ -47,6 +47,8 @@ pub const EDGE32: [u32; 32] = [
     0xE852_50D6, 0x36D7_6289,
     // sign bits of the narrower integer types, and the two alternating bit patterns
     0x7F, 0x80, 0x7FFF, 0x8000, 0x5555_5555, 0xAAAA_AAAA,
+    // memory-fill patterns (freed / uninitialised / poisoned memory as firmware and allocators leave it)
+    0xAFAF_AFAF, 0xCCCC_CCCC, 0xCDCD_CDCD, 0xDEAD_BEEF,
 ];
 
 /// One step of the specification's tag walk over a payload (the bytes after
